@@ -608,7 +608,7 @@ def handleLine (tbl : TextTable) (line : String) : Option LineResult :=
              ofVerdict "new.oracle" (oracleNew c newObs), ofVerdict "get.oracle" (oracleGet c getObs),
              ofVerdict "rt.oracle" (oracleRoundTrip c rtObs)],
             [branchKey c, valueKey c.v, s!"type:{vt}"], convNontrivial c⟩
-  | ["rnd", vt, _base, _module, _unit, coef, consA, consS, pows, v, o0, o1, o2, o3, o4] => do
+  | ["rnd", vt, _base, _module, _unit, coef, consA, consS, pows, v, gObs, o0, o1, o2, o3, o4] => do
     let c ← convCase? vt coef consA consS pows v
     let S := flS c.fmt
     let f := baseFactor S c.pows
@@ -618,8 +618,11 @@ def handleLine (tbl : TextTable) (line : String) : Option LineResult :=
     let names := ["floor", "ceil", "round", "trunc", "fract"]
     let model := ops.map fun op => toBase S c.coef c.consA f (op g)
     let outs := (List.zip names (List.zip model obs)).map fun (n, m, o) => cmpFl c.fmt s!"{n}.model" m o
+    let gObs ← flOf? c.fmt gObs
     let orc := (List.zip (List.range 4) obs).map fun (i, o) => ofVerdict s!"{names[i]!}.oracle" (oracleRounding c i o)
-    return ⟨outs ++ orc, ["rnd", valueKey c.v], convNontrivial c⟩
+    -- the standard rounding of the value the implementation itself reads in the unit
+    let orc2 := (List.zip (List.range 5) obs).map fun (i, o) => ofVerdict s!"{names[i]!}.std.oracle" (oracleStdRounding c i gObs o)
+    return ⟨outs ++ [cmpFl c.fmt "rnd.get.model" g gObs] ++ orc ++ orc2, ["rnd", valueKey c.v], convNontrivial c⟩
   | ["bin", vt, "hypot", _q, ul, ur, lp, rp, a, b, obs] => do
     -- `hypot` is a libm function: a parameter of the model; only the oracle applies
     let f ← fmtOf? vt
@@ -698,6 +701,23 @@ def handleLine (tbl : TextTable) (line : String) : Option LineResult :=
   | ["absent", _module, _unit, reg, parse] =>
     some ⟨[if reg == "registry=0" && parse == "parse=0" then .ok
            else .prop "absent.oracle" "a unit added with unit! appears in the registry or is accepted by FromStr (documented as absent)"], ["absent"], true⟩
+  | ["pow", vt, coef, e, obs] => do
+    -- one factor of the base-unit combination: `U::coefficient().powi(D::to_i32())`
+    let f ← fmtOf? vt
+    let c ← flOf? f coef
+    let e ← parseInt? e
+    let o ← flOf? f obs
+    let m := flPowi f c e
+    let orc : Outcome :=
+      if !(c.isFinite && o.isFinite) || c.isZero then .guard "non-finite"
+      else
+        let exact : Rat := c.toRat ^ e
+        -- by-squaring needs at most 2·log2|e| + 1 roundings
+        let k : Rat := (2 * (e.natAbs.log2 + 1) + 1 : Nat)
+        if !(Fl.isNormal f o) then .guard "overflow/underflow"
+        else if ratAbs (o.toRat - exact) ≤ 2 * k * uro f * ratAbs exact then .ok
+        else .prop "pow.oracle" "a factor of the base-unit combination is not the base unit's coefficient raised to the quantity's exponent"
+    return ⟨[cmpFl f "pow.model" m o, orc], [s!"pow:{e}"], e != 0 && Fl.cmp c (Fl.one f) != some 0⟩
   | ["b2", vt, form, _q, _u, a, b, qres, rawres] =>
     match numTy? vt with
     | some N => handleSame N vt form a b qres rawres
